@@ -331,6 +331,14 @@ def readModel (s : List Char × List Char × Bool) : Except TokErr (List Char ×
 def readModelB (s : List Char × List Char × Option Char) : Except TokErr (List Char × List Char × Option Char) :=
   .ok ((spanDigits s.1).2, s.2.1 ++ (spanDigits s.1).1, (spanDigits s.1).2.head?)
 
+/-- Variant: no flag — a non-digit is an error exactly while nothing has been read. -/
+def readModelC (s : List Char × List Char) : Except TokErr (List Char × List Char) :=
+  match s.1 with
+  | [] => .ok s
+  | c :: _ =>
+    if c.isDigit then .ok ((spanDigits s.1).2, s.2 ++ (spanDigits s.1).1)
+    else if s.2 = [] then .error .valueError else .ok s
+
 theorem readUnsignedInt_eq (rest : List Char) : readUnsignedInt rest = readSpec rest := by
   first
   | (
@@ -370,6 +378,26 @@ theorem readUnsignedInt_eq (rest : List Char) : readUnsignedInt rest = readSpec 
       · simp only [readModelB, readSpec, Except.map, spanDigits, hc, if_true, Option.getD_some, List.nil_append]
         cases h : (spanDigits cs).2 <;> simp
       · simp [readModelB, readSpec, Except.map, spanDigits, hc])
+  | (
+    unfold readUnsignedInt
+    simp only []
+    rw [pyLoopM_eq _ readModelC (fun s => s.1.length)
+      (by
+        rintro ⟨cs, res⟩
+        rcases cs with _ | ⟨c, cs⟩
+        · simp [readModelC]
+        · simp only [readModelC]
+          by_cases hc : c.isDigit = true
+          · simp only [hc, if_true]
+            refine ⟨by simp, ?_⟩
+            rcases cs with _ | ⟨d, cs⟩
+            · simp [spanDigits, hc]
+            · by_cases hd : d.isDigit = true <;> simp [hd, hc, spanDigits]
+          · rcases res with _ | ⟨x, xs⟩ <;> simp [hc])
+      _ _ (by simp only []; omega)]
+    rcases rest with _ | ⟨c, cs⟩ <;> simp only [readModelC, readSpec, Except.map]
+    · rfl
+    · by_cases hc : c.isDigit = true <;> simp [hc])
 
 /-- `Tokenizer.__next__`: skip whitespace; an operator character is a token; `#` starts a metric token; anything else
 is a `ValueError`; the end of the input is `StopIteration`. -/
